@@ -65,6 +65,18 @@ let holds _ c impl =
     let last_released = ref (Z.zero) in
     let state = ref "PRESYNC" in
     let verdict = ref "ok" in
+    (* the commitment clause: extracted holds_commitments (sound by C33_holds_commitments_sound) on
+       the (success, state after) the implementation reported per call *)
+    let st_of = function "PRESYNC" -> Model.PRESYNC | "REDOWNLOAD" -> Model.REDOWNLOAD | _ -> Model.FINAL in
+    (try
+       let cur = ref Model.PRESYNC in
+       let reported = List.map (fun o -> match words o with
+           | suc :: _ :: st :: _ -> cur := st_of st; (suc = "1", !cur)
+           | _ -> (false, !cur)) outs in
+       let mcalls = List.map (fun (full, hs) -> (hs, full)) calls in
+       if not (Model.holds_commitments p mcalls reported) then
+         verdict := "fail the sync went on in REDOWNLOAD although a re-downloaded header at a commitment height has no matching first-pass commitment (the headers behind released ones were not checked against the first pass)"
+     with _ -> ());
     List.iter2 (fun (_, hs) o ->
         List.iter (fun h -> Hashtbl.replace sent (zt_of_z h.Model.h_id) (zt_of_z h.Model.h_prev)) hs;
         match words o with
